@@ -67,6 +67,7 @@ def cases(draw):
         cfgs.append(sib)
     op = st.one_of(st.tuples(st.just("calibrate"), st.integers(1, 3)), st.tuples(st.just("calibrate"), st.integers(1, 3)),
                    st.tuples(st.just("checkpoint"), st.integers(0, 2)), st.tuples(st.just("restore")),
+                   st.tuples(st.just("caller_reuses_arguments")),
                    st.tuples(st.just("set_samplers"), gen.lineup_spec(kinds=["halton", "rseq", "uniform", "pso"], min_len=1,
                                                                       max_len=3, max_bs=2)),
                    st.tuples(st.just("new_run"), st.integers(0, len(cfgs) - 1), st.integers(-1, 2)))
@@ -170,6 +171,11 @@ def check_json(ctx: Ctx, case):
                     # replaced sampler classes keep their ids only in the calibrator's id table
                     cal.set_samplers([gen.make_sampler(x) for x in op[1]])
                     classes.add("set_samplers")
+                    continue
+                elif op[0] == "caller_reuses_arguments":
+                    # the arrays given to the constructor belong to the caller, who may overwrite them afterwards
+                    if calib.caller_reuses_arguments(cal):
+                        classes.add("caller-reuses-arguments")
                     continue
                 elif op[0] == "restore":
                     if cal.saving_folder is None or owner.get(cal.saving_folder) != run_id:
